@@ -222,7 +222,6 @@ func checkC14(c c14Case) error {
 	if err != nil {
 		return err
 	}
-	env.Opts |= interp.NoGlob
 	env.Args = append([]string{"sh"}, c.Args...)
 	if c.AssignIFS != "" {
 		// the word itself assigns IFS, which is unset or null beforehand
@@ -230,35 +229,71 @@ func checkC14(c c14Case) error {
 			ifs = ""
 		}
 	}
-	if c.IFSSet {
-		env.Set("IFS", ifs)
-	} else {
-		env.Unset("IFS")
-	}
-	for k, v := range vars {
-		env.Set(k, v)
-	}
 	defer func() {
 		for k := range vars {
 			env.Unset(k)
 		}
 	}()
-	var got []string
-	if err := guard(func() error {
-		var e error
-		got, e = env.Expand(word, 0)
-		return e
-	}); err != nil {
-		return fmt.Errorf("Expand of %s (src %q) IFS=%q set=%v: %v", segString(c.Segs), src, ifs, c.IFSSet, err)
-	}
 	want, keep := c14Want(c)
-	if !(len(got) == 0 && len(want) == 0) && !reflect.DeepEqual(got, want) {
-		return fmt.Errorf("Expand of %s (src %q) IFS=%q set=%v args=%q assigning IFS=%q: got %q, want %q", segString(c.Segs), src, ifs, c.IFSSet, c.Args, c.AssignIFS, got, want)
+	// once with pathname expansion switched off and, where it has nothing to
+	// do (see c14GlobNeutral), once with it on: the fields are the same
+	for _, glob := range []bool{false, true} {
+		how := ""
+		env.Opts = interp.NoGlob
+		if glob {
+			if !c14GlobNeutral(c, want) {
+				break
+			}
+			env.Opts = 0
+			how = " with pathname expansion on"
+		}
+		if c.IFSSet {
+			env.Set("IFS", ifs)
+		} else {
+			env.Unset("IFS")
+		}
+		for k, v := range vars {
+			env.Set(k, v)
+		}
+		var got []string
+		if err := guard(func() error {
+			var e error
+			got, e = env.Expand(word, 0)
+			return e
+		}); err != nil {
+			return fmt.Errorf("Expand of %s (src %q) IFS=%q set=%v%s: %v", segString(c.Segs), src, ifs, c.IFSSet, how, err)
+		}
+		if !(len(got) == 0 && len(want) == 0) && !reflect.DeepEqual(got, want) {
+			return fmt.Errorf("Expand of %s (src %q) IFS=%q set=%v args=%q assigning IFS=%q%s: got %q, want %q", segString(c.Segs), src, ifs, c.IFSSet, c.Args, c.AssignIFS, how, got, want)
+		}
+		if cat := strings.Join(got, ""); cat != keep {
+			return fmt.Errorf("Expand of %s IFS=%q set=%v%s: fields %q concatenate to %q, but the word without its unquoted IFS characters is %q", segString(c.Segs), ifs, c.IFSSet, how, got, cat, keep)
+		}
 	}
-	if cat := strings.Join(got, ""); cat != keep {
-		return fmt.Errorf("Expand of %s IFS=%q set=%v: fields %q concatenate to %q, but the word without its unquoted IFS characters is %q", segString(c.Segs), ifs, c.IFSSet, got, cat, keep)
-	}
+	env.Opts = interp.NoGlob
 	return nil
+}
+
+// c14GlobNeutral: pathname expansion cannot change the fields of this word,
+// whatever the working directory holds: no unquoted pattern character or
+// backslash in it, and no field that is an absolute path.
+func c14GlobNeutral(c c14Case, want []string) bool {
+	for _, s := range c.Segs {
+		if !s.Quoted && strings.ContainsAny(s.Text, "*?[\\") {
+			return false
+		}
+	}
+	for _, a := range c.Args {
+		if strings.ContainsAny(a, "*?[\\") {
+			return false
+		}
+	}
+	for _, f := range want {
+		if strings.HasPrefix(f, "/") {
+			return false
+		}
+	}
+	return true
 }
 
 func segString(segs []ref.Seg) string {
